@@ -38,6 +38,7 @@ type c13Case struct {
 	Recs    [][]int   `json:"recs"`
 	Cuts    []int     `json:"cuts"`
 	Pairs   [][]int   `json:"pairs"`
+	Abandon bool      `json:"abandon"` // before each SetChunk of a pair: a SetChunk to some other record that is never read from
 	Iters   [][][]int `json:"iters"`
 	Cache   string    `json:"cache"`
 	CacheN  int       `json:"cachen"`
@@ -238,6 +239,19 @@ func c13Bam(c *c13Case) interface{} {
 			continue
 		}
 		ch := bgzf.Chunk{Begin: chunks[i].Begin, End: chunks[j].End}
+		if c.Abandon {
+			// a chunk that is set and dropped without a read (an iterator that
+			// is abandoned, a query that is superseded): the block it seeks
+			// into goes to the cache positioned inside, untouched
+			m := (i*7 + j*3 + 1) % len(chunks)
+			if j > i {
+				// a record inside the span that is replayed next, so that the
+				// replay walks into the abandoned block from the one before it
+				m = i + 1 + (i+j)%(j-i)
+			}
+			ab := bgzf.Chunk{Begin: chunks[m].Begin, End: chunks[m].End}
+			br.SetChunk(&ab)
+		}
 		if err := br.SetChunk(&ch); err != nil {
 			pairs = append(pairs, map[string]interface{}{"set_err": c02Err(err), "msg": err.Error()})
 			continue
